@@ -1949,7 +1949,7 @@ def run(ctx):
         L.leanchecker(ctx, MODULES)
     n_shards = ctx.scale(16, 32)
     per = ctx.scale(6, 70)
-    deadline = ctx.scale(38, 540)
+    deadline = ctx.scale(28, 540)
     args = [(ctx.seed, i, per, deadline, ctx.tier) for i in range(n_shards)]
     run_shards(ctx, shard, args)
     if ctx.corr and not ctx.spec:
